@@ -255,16 +255,16 @@ def prop(case, ctx):
         n = case["n"]
         F = target_dense(case["data"], n, rng)
         Y0 = plib(teneva.rand, n, 1 + fl % 3, seed=int(case["seed"] % 1000))
-        growth = bool(fl & 4)
+        growth = (1 + (fl // 16) % 2) if fl & 4 else 0       # rank growth by 0, 1 or 2 per step (2 rows cannot always be added: nearly saturated unfoldings)
         info = {}
-        Z = plib(teneva.cross, lambda I: F[tuple(I.T)], Y0, nswp=2 + fl % 2, dr_min=1 if growth else 0, dr_max=1 if growth else 0,
+        Z = plib(teneva.cross, lambda I: F[tuple(I.T)], Y0, nswp=2 + fl % 2, dr_min=growth, dr_max=growth,
                     info=info, cache={} if fl & 8 else None)
         check_tt(ctx, Z, n, f"cross on a {case['data']} target")
         ctx.check(not (isinstance(info["e"], float) and math.isnan(info["e"])) and not np.isnan(info["e"]), "cross: info['e'] is NaN", e=repr(info["e"]))
         ctx.check(np.isfinite(info["r"]), "cross: info['r'] not finite")
         # the same run cut short at every point (evaluation budget, objective returning None at its k-th call): what is handed back
         # for a degenerate target must be a well-formed finite tensor too
-        kwc = dict(nswp=2 + fl % 2, dr_min=1 if growth else 0, dr_max=1 if growth else 0)
+        kwc = dict(nswp=2 + fl % 2, dr_min=growth, dr_max=growth)
         if case["seed"] % 6:
             return          # (the interruption enumeration runs for a sixth of the cross cases: ~30 runs each)
         ctx.label("cross_interruptions_enumerated")
